@@ -17,4 +17,19 @@ pub fn vf_vec_map<A, B, F: Fn(A) -> B>(v: Vec<A>, f: F) -> (r: Vec<B>)
     requires forall|i: int| 0 <= i < v@.len() ==> call_requires(f, (#[trigger] v@[i],)),
     ensures r@.len() == v@.len(), forall|i: int| 0 <= i < v@.len() ==> call_ensures(f, (v@[i],), #[trigger] r@[i]),
 { unimplemented!() }
+// v.into_iter().filter_map(f).collect::<Vec<_>>(): exactly the Some-values of f (ASSUMED std semantics; order not stated):
+// every result is a Some-value of f on some element; an element on which f can only return Some contributes its value
+#[verifier::external_body]
+pub fn vf_vec_filter_map<A, B, F: Fn(A) -> Option<B>>(v: Vec<A>, f: F) -> (r: Vec<B>)
+    requires forall|i: int| 0 <= i < v@.len() ==> call_requires(f, (#[trigger] v@[i],)),
+    ensures
+        forall|j: int| 0 <= j < r@.len() ==> exists|i: int| 0 <= i < v@.len() && call_ensures(f, (v@[i],), Some(#[trigger] r@[j])),
+        forall|i: int| #![trigger v@[i]] 0 <= i < v@.len() && only_some(f, v@[i]) ==> exists|j: int| 0 <= j < r@.len() && call_ensures(f, (v@[i],), Some(r@[j])),
+{ unimplemented!() }
+pub open spec fn only_some<A, B, F: Fn(A) -> Option<B>>(f: F, x: A) -> bool { forall|o: Option<B>| call_ensures(f, (x,), o) ==> o.is_some() }
+pub uninterp spec fn script_hash_of(s: Script) -> Seq<u8>;
+impl Script {
+    #[verifier::external_body]
+    pub fn calc_script_hash(&self) -> (r: Byte32) ensures r@ == script_hash_of(*self) { unimplemented!() }
+}
 // ===== end =====
